@@ -20,6 +20,7 @@ from qstatic.dom_sym import sym_quat, arrays_same, first_diff, mk, SymArr
 from qstatic.interp import PathExplorer, RepoRaise, ModelError
 from .common import new_interp, ref_matmul, ref_hermitian, run_guarded, short
 from .common_nc import cond_parts, cond_canon
+from qstatic.scenario import known_zero_keys
 
 LEVEL = "other"
 EXPLANATION = ("hessenbergize / check_hessenberg / is_hessenberg are interpreted over arrays of generic symbolic quaternions; "
@@ -63,7 +64,9 @@ def run(ctx):
             calls.append((a.copy(), v, Hs))
             return Hs
 
-        it, d = new_interp(ctx, chooser=lambda interp, node, cond: False,
+        # comparisons are answered "no"; anything else (np.any / np.all of data ...) gets its generic outcome and, through the
+        # scenario mechanism, its special outcome on consistently specialised inputs
+        it, d = new_interp(ctx, chooser=lambda interp, node, cond: (False if cond_parts(cond) is not None else None),
                            summaries={"decomp.tridiagonalize:householder_matrix": s_house})
         A = sym_quat("a", (n, n))
         A_before = A.copy()
@@ -94,25 +97,38 @@ def run(ctx):
         for i in range(n):
             Pc[i, i] = SQ(1)
         okp, why = True, ""
-        if len(calls) != n - 2:
-            okp, why = False, f"{len(calls)} reflectors built for n={n} (expected {n - 2})"
-        for k, (a, v, Hs) in enumerate(calls):
-            want = Hc[k + 1:, k]
-            if not arrays_same(a, want):
-                okp, why = False, f"reflector {k} is not built from the current H[{k + 1}:, {k}]"
+        zk = frozenset(known_zero_keys(it.decision_log)) if ctx.scenario else frozenset()
+
+        def col_reduced(k):
+            """column k of the current reference H has nothing below the sub-diagonal (identically, or established by the path)"""
+            return all(all(c_.is_zero() or c_.key() in zk for c_ in Hc[i, k].c) for i in range(k + 2, n))
+        ci = 0
+        for k in range(n - 2):
+            if ci < len(calls) and arrays_same(calls[ci][0], Hc[k + 1:, k]):
+                a, v, Hs = calls[ci]
+                ci += 1
+                e1 = [P(x) for x in (v.reshape(-1) if isinstance(v, SymArr) else v)]
+                if not (len(e1) == n - k - 1 and e1[0].same(1) and all(x.is_zero() for x in e1[1:])):
+                    okp, why = False, f"reflector for column {k} does not target the unit vector e1 of length {n - k - 1}"
+                    break
+                Hk = embed(Hs, k + 1, n)
+                Hc = ref_matmul(ref_matmul(Hk, Hc), ref_hermitian(Hk))
+                Pc = ref_matmul(Hk, Pc)
+            elif col_reduced(k):
+                continue            # nothing to eliminate in this column: no reflector needed
+            else:
+                okp, why = False, (f"no reflector is built from the current H[{k + 1}:, {k}] although that column has entries below the "
+                                   f"sub-diagonal ({len(calls)} reflectors for n={n})")
                 break
-            e1 = [P(x) for x in (v.reshape(-1) if isinstance(v, SymArr) else v)]
-            if not (len(e1) == n - k - 1 and e1[0].same(1) and all(x.is_zero() for x in e1[1:])):
-                okp, why = False, f"reflector {k} target is not the unit vector e1 of length {n - k - 1}"
-                break
-            Hk = embed(Hs, k + 1, n)
-            Hc = ref_matmul(ref_matmul(Hk, Hc), ref_hermitian(Hk))
-            Pc = ref_matmul(Hk, Pc)
+        if okp and ci != len(calls):
+            okp, why = False, f"{len(calls) - ci} reflector(s) built from something else than the current sub-columns"
+        # (how P is composed is a statement about the Householder algorithm; on specialised inputs another correct algorithm may be
+        #  used - there the similarity clause above is the one that counts)
         ctx.ob("C09.D1.reflectors", tag, okp, why, where=f_h.where, construct="reflector provenance / embedding offset",
-               loc=f_h.loc())
+               loc=f_h.loc(), generic_only=True)
         ctx.ob("C09.D1.accumulation", tag, okp and arrays_same(Pm, Pc) and arrays_same(H, Hc),
                "P is not Hk_last ... Hk_0 with Hk = diag(I_{k+1}, reflector_k), or H is not Hk H Hk^H applied in sequence",
-               where=f_h.where, construct="P != prod Hk", loc=f_h.loc(), detail=short(first_diff(Pm, Pc)))
+               where=f_h.where, construct="P != prod Hk", loc=f_h.loc(), detail=short(first_diff(Pm, Pc)), generic_only=True)
     # embedding helper in isolation
     for (k, off, n) in [(2, 1, 3), (1, 2, 3), (3, 1, 4)]:
         it, d = new_interp(ctx)
